@@ -70,7 +70,7 @@ def work(task):
             # the command-line back ends (cvc5, z3 4.8) are a fallback for the odd unstable query, not for a
             # function whose proof has collapsed: at most 2 fallbacks per function and run
             verify.solve_obligation(ob, timeout_ms=opts.get("timeout_ms", 10000),
-                                    use_cli=(not opts.get("no_cli")) and n_unknown < 2)
+                                    use_cli=(not opts.get("no_cli")) and n_unknown < 6)
             if ob.status == "unknown":
                 n_unknown += 1
             rec = {"name": ob.name, "id": stable_id(ob.name), "kind": ob.kind, "status": ob.status, "backend": ob.backend,
@@ -94,18 +94,13 @@ def work(task):
                 model_args = None
                 if bidx < len(match):
                     b = match[bidx]
-                    verify.solve_obligation(b, timeout_ms=opts.get("timeout_ms", 10000), use_cli=False)
+                    verify.solve_obligation(b, timeout_ms=opts.get("timeout_ms", 10000), use_cli=False, bounded=True)
                     rec["refutation"] = {"status": b.status, "time_s": round(b.time_s, 3), "bound": 3}
                     if b.status == "sat":
                         rec["status"] = "failed"
                         rec["backend"] = "z3-5.1.0 refutation mode (bound 3)"
                         rec["model"] = model_text(b.model, brep.inputs)
                         model_args = model_inputs(b.model, brep.inputs)
-                if ob.status == "sat":
-                    rec["status"] = "failed"
-                    rec.setdefault("model", model_text(ob.model, rep.inputs))
-                    if model_args is None:
-                        model_args = model_inputs(ob.model, rep.inputs)
                 if rec["status"] == "failed" and kind != "lemma":
                     rec["replay"] = replay.search(CONTRACTS[key], opts.get("seed", 0), opts.get("replay_tries", 3000), first_args=model_args)
             out["obligations"].append(rec)
